@@ -132,6 +132,10 @@ type c11Case struct {
 	// More: further if-feature statements on the same definition (all of them have to hold)
 	More      []string `json:"more,omitempty"`
 	MoreTrees []*fexpr `json:"more_trees,omitempty"`
+	// Inner (container, choice, case): everything inside the guarded definition is guarded by this expression of its
+	// own: the definition is there (empty) when its own expression holds, whatever becomes of its content
+	Inner     string `json:"inner,omitempty"`
+	InnerTree *fexpr `json:"inner_tree,omitempty"`
 }
 
 var c11Stmts = []string{"leaf", "leaf-list", "container", "list", "choice", "case", "anyxml", "uses", "augment", "refine", "rpc", "notification", "action"}
@@ -142,6 +146,10 @@ func c11Yang(c c11Case) (string, map[string]string) {
 		q += "; if-feature \"" + e + "\"" // (every use below closes the statement)
 	}
 	var feats, body, extra string
+	in := ""
+	if c.Inner != "" {
+		in = "if-feature \"" + c.Inner + "\"; "
+	}
 	files := map[string]string{}
 	if c.Sub {
 		feats = "include c11sub; feature c; feature d;"
@@ -155,13 +163,13 @@ func c11Yang(c c11Case) (string, map[string]string) {
 	case "leaf-list":
 		body = "leaf-list g { if-feature " + q + "; type string; }"
 	case "container":
-		body = "container g { if-feature " + q + "; leaf x { type string; } }"
+		body = "container g { if-feature " + q + "; leaf x { " + in + "type string; } }"
 	case "list":
 		body = "list g { if-feature " + q + "; key x; leaf x { type string; } }"
 	case "choice":
-		body = "choice g { if-feature " + q + "; leaf x { type string; } }"
+		body = "choice g { if-feature " + q + "; leaf x { " + in + "type string; } }"
 	case "case":
-		body = "choice ch { case g { if-feature " + q + "; leaf gl { type string; } } case other { leaf ol { type string; } } }"
+		body = "choice ch { case g { if-feature " + q + "; leaf gl { " + in + "type string; } } case other { leaf ol { type string; } } }"
 	case "anyxml":
 		body = "anyxml g { if-feature " + q + "; }"
 	case "uses":
@@ -227,6 +235,35 @@ func c11Present(m *meta.Module, stmt string) (present bool, problem string) {
 	return findDef(top, "g") != nil, ""
 }
 
+// c11InnerPresent looks for the leaf inside the guarded container, choice or case.
+func c11InnerPresent(m *meta.Module, stmt string) bool {
+	top, _ := findDef(m, "top").(*meta.Container)
+	switch stmt {
+	case "container":
+		g, _ := findDef(top, "g").(*meta.Container)
+		return g != nil && findDef(g, "x") != nil
+	case "choice":
+		g, _ := findDef(top, "g").(*meta.Choice)
+		if g == nil {
+			return false
+		}
+		for _, cs := range g.Cases() {
+			if findDef(cs, "x") != nil {
+				return true
+			}
+		}
+		return false
+	case "case":
+		ch, _ := findDef(top, "ch").(*meta.Choice)
+		if ch == nil {
+			return false
+		}
+		cs := ch.Cases()["g"]
+		return cs != nil && findDef(cs, "gl") != nil
+	}
+	return false
+}
+
 func c11Run(c c11Case, o *hx.Obs) {
 	y, files := c11Yang(c)
 	o.Class("stmt=%s", c.Stmt)
@@ -247,6 +284,9 @@ func c11Run(c c11Case, o *hx.Obs) {
 	o.Class("ops=%d", nops)
 	if len(c.More) > 0 {
 		o.Class("several if-feature statements on the definition")
+	}
+	if c.Inner != "" {
+		o.Class("the content of the definition has an if-feature of its own")
 	}
 	if nops >= 2 || strings.Contains(c.Expr, "(") {
 		o.NonTrivial()
@@ -302,8 +342,15 @@ func c11Run(c c11Case, o *hx.Obs) {
 				return
 			}
 			if got != want {
-				o.Failf("iffeature|"+exprShape(c.Expr)+"|"+cfg.name+"|"+c.Stmt+sub, "if-feature %q on a %s with enabled=%v (%s): statement present=%v, expression is %v", c.Expr, c.Stmt, onList, cfg.name, got, want)
+				o.Failf("iffeature|"+exprShape(c.Expr)+"|"+cfg.name+"|"+c.Stmt+sub, "if-feature %q on a %s with enabled=%v (%s): statement present=%v, expression is %v (content guarded by %q)", c.Expr, c.Stmt, onList, cfg.name, got, want, c.Inner)
 				return
+			}
+			if c.InnerTree != nil && got {
+				inWant := c.InnerTree.eval(on)
+				if inGot := c11InnerPresent(m, c.Stmt); inGot != inWant {
+					o.Failf("iffeature|"+exprShape(c.Inner)+"|"+cfg.name+"|inside-"+c.Stmt+sub, "if-feature %q on the leaf inside a %s with if-feature %q, enabled=%v (%s): leaf present=%v, expression is %v", c.Inner, c.Stmt, c.Expr, onList, cfg.name, inGot, inWant)
+					return
+				}
 			}
 		}
 	}
@@ -320,6 +367,10 @@ func c11Gen(t *rapid.T) c11Case {
 	sp := rapid.SampledFrom([]string{"", "", " "}).Draw(t, "spacing")
 	c.Tree.render(&b, 0, sp)
 	c.Expr = b.String()
+	if (c.Stmt == "container" || c.Stmt == "choice" || c.Stmt == "case") && rapid.Bool().Draw(t, "inner-guard") {
+		c.InnerTree = genFexpr(t, rapid.IntRange(0, 1).Draw(t, "inner-depth"))
+		c.Inner = c.InnerTree.String()
+	}
 	if rapid.IntRange(0, 2).Draw(t, "several-statements") == 0 {
 		for i := 0; i < rapid.IntRange(1, 2).Draw(t, "nmore"); i++ {
 			e := genFexpr(t, rapid.IntRange(0, 2).Draw(t, "more-depth"))
